@@ -62,6 +62,8 @@ def make_family():
         wl = S.MM2(*dims)
         add(f"MM2-{tag}/tight", wl, size=sized(wl, 0.3))
         add(f"MM2-{tag}/mid", wl, size=sized(wl, 0.6))
+    # a buffer that holds a single value: templates without free tile shapes overflow it
+    add("MV2-222/s8", S.MV2(2, 2, 2), size=8)
     # shapes whose optimum tiles the intermediate along TWO rank variables (two fused loops)
     wl = S.MM2(4, 2, 4, 4)
     add("MM2-4244/t15-e100", wl, size=sized(wl, 0.15), e_main=100)
@@ -80,7 +82,7 @@ FAMILY = make_family()
 
 QUICK_SIDS = [
     "MM1-222/tight", "MM1-422/tight", "MM1-422/tight-thr", "MM1-242/tight", "MM1-622/tight", "MV1-42/tight",
-    "MV2-222/tight", "MV2-222/mid-thr", "MM2-4244/t15-e100",
+    "MV2-222/tight", "MV2-222/mid-thr", "MV2-222/s8", "MM2-4244/t15-e100",
 ]
 # a middle tier used by checks that only need mapper runs + cached references
 MEDIUM_SIDS = [
